@@ -108,8 +108,6 @@ class C09(Oracle):
 
     # ------------------------------------------------------------------- after
     def after(self, w, i, op, out):
-        from .c12 import _no_shared_objects
-        _no_shared_objects(self, w, op)  # "leaves other unchanged" also forbids sharing objects
         if self.ctx is None or out.status == "skip":
             return
         k = self.ctx[0]
